@@ -60,7 +60,7 @@ func (s *streamWriter) Invoke(msgs []actor.Envelope) {
 		senders      = make([]*actor.PID, 0)
 		targetLookup = make(map[uint64]int32)
 		targets      = make([]*actor.PID, 0)
-		messages     = make([]*Message, len(msgs))
+		messages     = make([]*Message, 0, len(msgs))
 	)
 
 	for i := 0; i < len(msgs); i++ {
@@ -80,12 +80,12 @@ func (s *streamWriter) Invoke(msgs []actor.Envelope) {
 			continue
 		}
 
-		messages[i] = &Message{
+		messages = append(messages, &Message{
 			Data:          b,
 			TypeNameIndex: typeID,
 			SenderIndex:   senderID,
 			TargetIndex:   targetID,
-		}
+		})
 	}
 
 	env := &Envelope{
